@@ -35,6 +35,9 @@ CHECKS["C09"] = ("exploration", "E1", "bounded exhaustive enumeration of type li
 CHECKS["C10"] = ("model_checking", "E2", "exhaustive enumeration of (function specification, argument list) configurations with spy callbacks; every implementation event trace validated against a reference protocol automaton",
   "Every specification of the bounded space (3 type constraints x 16 flag combinations per parameter, 1-2 positional (+3 thorough) and optional variadic parameters, 4 type-check x 4 implementation callback behaviours, optional result refinement) x every argument list of every length over 10 argument kinds: the recorded trace (callback invocations with arguments, outcome) must be a path of the reference automaton: arity, per-argument admission, type-check on the deep-unmarked arguments, mark/unknown short-circuit carrying the unhandled marks, implementation only with contract-satisfying arguments, callback panics as PanicError, non-conforming results never returned, refinement on every typed result, ArgError naming an offender.",
   "trusted: the automaton (DESIGN app. C) and spy callbacks; where the statement allows two outcomes both are accepted", "§3 C10, §9")
+CHECKS["C11"] = ("exploration", "E1", "bounded exhaustive enumeration of (function, seed argument list, injection) triples; Call / ReturnTypeForValues / ReturnType run on each and related by a structural conformance model",
+  "All 80 exported stdlib functions and MakeToFunc for 10 target types x every seed argument list (full product of per-position alphabets incl. per-function dictionaries of format strings, patterns, timestamps, JSON/CSV documents, boundary numbers; variadic lengths 0..2, thorough 0..3) x every injection of null, null-of-dynamic, unknown, refined unknown, DynamicVal or a mark at one argument or one nested member (thorough: all pairs of argument-level injections): no Go panic and no PanicError from Call, ReturnType or ReturnTypeForValues; a successful call's type conforms to both predictions; the value-based prediction never rejects a successful call and the type-only prediction never rejects a call that succeeds on wholly known arguments.",
+  "trusted: TS conformance model; bound: the seed alphabets (stdfn.go), <=1 (thorough <=2) injected positions, nesting depth<=2; count-like numbers avoid (1025, 2^62)", "§3 C11")
 NOT_YET = {}
 props = [json.loads(l) for l in open('/verif/properties.jsonl')]
 checks = []
